@@ -152,7 +152,7 @@ IntRec(r, idx) ==
        wantStored == IF neg /\ numeral # <<0>> THEN <<45>> \o [i \in 1..Len(numeral) |-> numeral[i] + 48]
                      ELSE [i \in 1..Len(numeral) |-> numeral[i] + 48]
        syntaxOnly == r.rule \in {"unsigned_rule", "signed_rule"}
-       failsLocally == isMax /\ ~StartsWith(r.rule, "maximum_rule_with_action")      \* maximum_rule: overflow is a local failure
+       failsLocally == r.rule = "maximum_rule"      \* maximum_rule: overflow is a local failure
    IN IF syn.k = "F"
       THEN If(r.res # 0 \/ r.n # 0, V("C15", idx, "int", "not a numeral: must fail locally without consuming", <<r.rule, r.res, r.n>>, w))
       ELSE IF syntaxOnly
